@@ -511,7 +511,11 @@ WBXML_DECLARE(WBXMLList *) wbxml_buffer_split_words_real(WBXMLBuffer *buff)
             return NULL;
         }
 
-        wbxml_list_append(list, word);
+        if (!wbxml_list_append(list, word)) {
+            wbxml_buffer_destroy(word);
+            wbxml_list_destroy(list, wbxml_buffer_destroy_item);
+            return NULL;
+        }
     }
 
     return list;
